@@ -378,6 +378,9 @@ def _run_traces(ctx, n_models, n_k, kpath):
             a = random_katmos(krng, kpath, kind, iso) if kmode else random_atmos(rng, kind, iso)
             m = a.model
             ng = len(m._mu_quads)
+            # "integrated over emission angle by Gauss-Legendre quadrature" with the number of points asked for
+            ctx.verdict('quadrature_points_as_requested', ng == a.ngauss, cls='quad:%s:ngauss%d' % (kind, a.ngauss),
+                        detail='%s model constructed with ngauss=%d integrates over %d angles' % (kind, a.ngauss, ng), vector=vec)
             # Gauss-Legendre facts of the quadrature actually used by this model
             mu = [float(x) for x in m._mu_quads]
             wq = [float(x) for x in m._wi_quads]
